@@ -540,13 +540,7 @@ impl EventGen for VarElement {
             if key != "_" && key != "__" {
                 let value = eval_attr(&value, context)?;
                 // Detect / prevent uncontrolled expansion of variable values
-                if value.len() > context.config.var_limit as usize {
-                    return Err(SvgdxError::VarLimitError(
-                        key.clone(),
-                        value.len(),
-                        context.config.var_limit,
-                    ));
-                }
+                context.check_var_limit(&key, &value)?;
                 new_vars.push((key, value));
             }
         }
